@@ -16,25 +16,25 @@ func init() {
 		ID:    "C14",
 		Title: "Concurrent clients see linearizable, race-free stores and index",
 		Explanation: "Decided (lock discipline only, a necessary condition for race freedom): " +
-			"L-guard — for every (struct type, mutex, field) of the frozen guard table, every read of the field (load, map lookup/range, slice index/len, passing the container to a call) executes with that object's mutex held for R or W and every write (store, map update/delete, slice element store, append-and-store) with it held for W, on every CFG path (must-hold lockset); the lockset at function entry is empty except for unexported functions all of whose static call sites hold the lock (meet over callers, least fixpoint) and functions declared lock-requiring (L-locked); objects allocated in the same function and not yet published are exempt; a field nobody writes after construction needs no lock for reads. A guarded field's address handed to a function is a write unless the callee's body only reads through that parameter. For a guarded field that holds a pointer to a struct, every statically resolved call that passes the loaded pointer (method calls on the field) is classified from the callee's body by a receiver-access summary: does it store / update a map / call a mutator through memory reachable from that parameter, transitively (depth 7), outside an exclusive lock the callee takes itself? Such a call is a write of the guarded state (W lock needed at the call, also after the pointer was copied to a local); a call that only reads is a read once some mutating call exists. Branches on construction-only bool fields of the pointee (lru.Cache.nolock) and on constant bool arguments are pruned using the configuration the stored object was constructed with. Callees that hand the state to atomics, sync.Once/Cond/WaitGroup, channels, interface or dynamic calls are NOT classified (no obligation). " +
-			"L-locked — every call site of a function that requires a lock by contract (name ends in 'Locked', doc comment says the lock must be held, or a heap.Interface callback of a mutex-embedding heap) holds that lock in the mode the callee's body needs, or operates on a not-yet-published object. " +
+			"L-guard — for every (struct type, mutex, field) of the frozen guard table, every read of the field (load, map lookup/range, slice index/len, passing the container to a call) executes with that object's mutex held for R or W and every write (store, map update/delete, slice element store, append-and-store) with it held for W, on every CFG path (must-hold lockset); the lockset at function entry is empty except for unexported functions all of whose static call sites hold the lock (meet over callers, least fixpoint) and functions declared lock-requiring (L-locked); objects allocated in the same function and not yet published are exempt (a callee that only uses the object in literals it calls or defers itself does not publish it); a field nobody writes after construction needs no lock for reads. Installed fresh objects (decided by role, no function or constructor names): after a store that installs an object created in the same function (composite literal, new, or the result of a function whose every return yields an object it allocated) into a field of an EXCLUSIVELY OWNED object, the new object's own mutexes count as held for writing — in the rest of the function, in literals it runs synchronously (not go), and, through the entry-lockset inference, in unexported helpers it hands the owner or the new object to. Exclusively owned = allocated here and unpublished at the access, or a parameter of an unexported function never used as a value/through an interface whose every static call passes an unpublished object, lies in a function of the frozen start-up table (today index.(*Index).Reindex: run by serverinit before the index is installed), or passes on a parameter with the same property (depth 4); in the parameter case the store must run with a mutex of the owner held for writing and every store to that field in the function must install a fresh object. This replaces the former per-function exception for initDeletesCacheLocked. A guarded field's address handed to a function is a write unless the callee's body only reads through that parameter. For a guarded field that holds a pointer to a struct, every statically resolved call that passes the loaded pointer (method calls on the field) is classified from the callee's body by a receiver-access summary: does it store / update a map / call a mutator through memory reachable from that parameter, transitively (depth 7), outside an exclusive lock the callee takes itself? Such a call is a write of the guarded state (W lock needed at the call, also after the pointer was copied to a local); a call that only reads is a read once some mutating call exists. Branches on construction-only bool fields of the pointee (lru.Cache.nolock) and on constant bool arguments are pruned using the configuration the stored object was constructed with. Callees that hand the state to atomics, sync.Once/Cond/WaitGroup, channels, interface or dynamic calls are NOT classified (no obligation). " +
+			"L-locked — every call site of a function that requires a lock by contract (name ends in 'Locked', doc comment says the lock must be held — a documented helper that no longer exists is skipped: its former body is then checked with the entry lockset inferred from the callers —, or a heap.Interface callback of a mutex-embedding heap) holds that lock in the mode the callee's body needs, or operates on a not-yet-published object. Inside a contract function the contract lock is assumed and, when the function is unexported and only called statically, also whatever every static caller holds. " +
 			"L-unsync — enumerated: every struct field, in non-test module code, that holds a pointer to a lock-configurable type (a struct with its own sync.Mutex/RWMutex some method of which skips the acquisition depending on a bool field that is only ever stored on objects under construction — today internal/lru.Cache with nolock); the configuration of every value stored into the field is derived from its construction (composite literal / new = zero, constant stores dominating the use, through constructor calls to depth 4; by what the constructors do, not by their names). If every stored object locks itself nothing is required of the owner. Otherwise every call on the field whose body (under that configuration) mutates the object must run with a mutex of the owning object held exclusively — sync.Mutex.Lock or RWMutex.Lock; RLock does not count because two read-lock holders run concurrently — every call that only reads it with that mutex held in any mode, on every CFG path (owner not yet published: exempt), and one mutex must be common to all mutating sites. The pointer leaving the owner's methods (stored, returned, passed on, captured) or a construction that cannot be followed is Undecided. " +
 			"L-rlock — table-free contradiction check: enumerated are the accesses to every non-table, non-sync field of every module struct that has a sync.RWMutex field, and to package-level variables of packages that declare a package-level sync.RWMutex. An access that is a definite write (store, map update/delete, clear, copy-into, in-place element write, address passed to a callee whose body writes through it, or a call on the pointed-to object whose body mutates it outside a lock of its own) and executes with that owner's RWMutex held for reading while no lock at all is held exclusively (must-hold lockset incl. inferred entry locksets) is a violation: the read side admits several holders, so the section can run twice at once. Reads, atomics and not-classified callees under RLock are accepted. " +
-			"L-corpus — the in-memory corpus has no mutex of its own; the lock is abstracted to one token INDEX (Lock/RLock on *index.Index, on its mu field, or through an interface with Lock/Unlock/RLock/RUnlock such as index.Interface). Contract functions (callers must hold INDEX): every *index.Corpus method, every *index.LocationHelper method, the *index.Index methods of index.Interface, and search.Handler methods named *Locked. Enumerated: every site in non-contract module code that calls, goes, defers, invokes through an interface, or takes the function value of a contract function that (transitively) touches Corpus fields. Decided: INDEX is held at the site on every CFG path, or the enclosing function is only ever entered with INDEX held — every static call, function-value reference and possible interface dispatch of it in the module is itself under INDEX or in a function with that property (greatest fixpoint; a function nothing in the module refers to is an entry point and is not assumed locked). Stated assumptions: a function literal or goroutine created while INDEX is held runs while it is held (the join before the unlock is not decided); a function value is entered where it is created. " +
-			"L-excl — an RWMutex that protects the directory tree of a storage rather than a struct field. Enumerated: every sync.RWMutex field (by value or by pointer) of a struct type declared under pkg/blobserver that is not the mutex of a guard-table entry; it is a directory lock when some directory-structure operation of its owner executes with it held (today files.Storage.dirLockMu). Filesystem calls are classified by a frozen table over the methods of files.VFS (checked against the interface's method set on every run; calls matched by type: invokes through VFS or an interface including it, static calls on implementers) and the os/robustio functions with the same effect: makes a directory (MkdirAll/Mkdir), creates an entry in a directory (TempFile/CreateTemp, Create/OpenFile/WriteFile/Rename-target of a path computed from it), removes a directory (RemoveDir always; Remove/RemoveAll/Rename-source when the path VALUE is a directory path: the same value is a directory argument elsewhere in the function, comes from a function whose results are used as directories, or is a parameter callers fill that way). A call is attributed to the storage object whose field holds the VFS, else to the receiver of the enclosing method; a helper that gets the VFS as a plain parameter is lifted to its call sites (depth 3); bodies of VFS implementers are the layer below the lock and not examined. Decided: (1) for every make-directory call and every call in the same function that creates an entry in that directory (same value, or a module callee that uses the parameter that way), the directory lock is in the must-hold lockset (R or W; entry locksets inferred through unexported wrappers) at both calls and no CFG path from the first to the second passes a release of it (drop-and-retake is a violation); (2) every directory-removing call holds the lock for WRITING at the call (a go statement starts with an empty lockset, the lock taken inside the spawned function counts). A removal under the read side only, or under no lock, is a violation: two read holders run concurrently, the rmdir can land between a receiver's MkdirAll and TempFile and the receive fails with ENOENT on a healthy store, which no sequential order of the calls produces. A make-directory call whose dependent call cannot be found in the same function, or an owner that cannot be named, is Undecided. " +
-			"NOT decided: for L-excl — that VFS implementers behave as the table says (rmdir semantics of RemoveDir, Remove never handed a directory by code the value criterion does not see); sequences that span functions (directory made in a callee, used by the caller); directory locks outside pkg/blobserver or that also guard tabled fields; whether the lock is the right object when several storages share one tree; liveness (writer starvation). Absence of races on state that is neither in the guard table nor a field of an RWMutex-carrying struct / a lock-configurable object; unsynchronised containers that never had a lock of their own and sit in unguarded fields (container/list, bytes.Buffer, plain maps in structs without a table entry) when accessed with NO lock at all; mutation reached only through interface/dynamic calls or through callees using atomics/sync primitives (not classified); lock-configurable objects held by value, in locals, globals, maps or slices rather than in a struct field; path feasibility beyond constant bool flags (a mutating branch that cannot execute still counts); direct reads of Corpus fields from Index methods outside index.Interface (HasLegacySHA1, signerRefs); the R/W mode of the index lock around corpus mutation reached through L-corpus (L-rlock sees only statically resolved Corpus calls on Index.corpus); that goroutines started under the index lock are joined before it is released; VTA confirmation of dynamic call edges (not used); atomicity of check-then-act sequences, lost updates, deadlock freedom, linearizability against the reference map, any concrete schedule.",
+			"L-corpus — the in-memory corpus has no mutex of its own; the lock is abstracted to one token INDEX (Lock/RLock on *index.Index, on its mu field, or through an interface with Lock/Unlock/RLock/RUnlock such as index.Interface). Contract functions (callers must hold INDEX): every *index.Corpus method, every *index.LocationHelper method, the *index.Index methods of index.Interface, and search.Handler methods named *Locked. Enumerated: every site in non-contract module code that calls, goes, defers, invokes through an interface, or takes the function value of a contract function that (transitively) touches Corpus fields. Decided: INDEX is held at the site on every CFG path, or the enclosing function is only ever entered with INDEX held — every static call, function-value reference and possible interface dispatch of it in the module is itself under INDEX or in a function with that property (greatest fixpoint; a function nothing in the module refers to is an entry point and is not assumed locked). One frozen exception, keyed by the contract function and a root, not by the site: index.(*Index).GetBlobMeta called from code only index.newFromConfig can reach (the root, its literals, unexported functions all of whose static calls and value references lie in such code, depth 4) — the start-up integrity check on an index nobody else has yet. Stated assumptions: a function literal or goroutine created while INDEX is held runs while it is held (the join before the unlock is not decided); a function value is entered where it is created. " +
+			"L-excl — an RWMutex that protects the directory tree of a storage rather than a struct field. Enumerated: every sync.RWMutex field (by value or by pointer) of a struct type declared under pkg/blobserver that is not the mutex of a guard-table entry; it is a directory lock when some directory-structure operation of its owner executes with it held (today files.Storage.dirLockMu). Filesystem calls are classified by a frozen table over the methods of files.VFS (checked against the interface's method set on every run; calls matched by type: invokes through VFS or an interface including it, static calls on implementers) and the os/robustio functions with the same effect: makes a directory (MkdirAll/Mkdir), creates an entry in a directory (TempFile/CreateTemp, Create/OpenFile/WriteFile/Rename-target of a path computed from it), removes a directory (RemoveDir always; Remove/RemoveAll/Rename-source when the path VALUE is a directory path: the same value is a directory argument elsewhere in the function, comes from a function whose results are used as directories, or is a parameter callers fill that way). A call is attributed to the storage object whose field holds the VFS, else to the receiver of the enclosing method; a helper that gets the VFS as a plain parameter is lifted to its call sites (depth 3); bodies of VFS implementers are the layer below the lock and not examined. Decided: (1) for every make-directory call and every call in the same function that creates an entry in that directory (same value, or a module callee that uses the parameter that way), the directory lock is in the must-hold lockset (R or W; entry locksets inferred through unexported wrappers) at both calls and no CFG path from the first to the second passes a release of it (drop-and-retake is a violation); (2) every directory-removing call holds the lock for WRITING at the call (a go statement starts with an empty lockset, the lock taken inside the spawned function counts). A removal under the read side only, or under no lock, is a violation: two read holders run concurrently, the rmdir can land between a receiver's MkdirAll and TempFile and the receive fails with ENOENT on a healthy store, which no sequential order of the calls produces. When the make-directory call sits in an unexported, only statically called helper that leaves creating the entry to its callers (function splitting), the sequence is decided in every caller instead, from the call of the helper on: the directory value is the helper's argument or the result that carries the path, the helper must run with the lock held (inferred entry lockset) and must not lock/unlock it itself (depth 3). A make-directory call whose dependent call cannot be found in the function or its callers, a dependent call inside a function literal, or an owner that cannot be named, is Undecided. " +
+			"NOT decided: for L-excl — that VFS implementers behave as the table says (rmdir semantics of RemoveDir, Remove never handed a directory by code the value criterion does not see); sequences that span functions other than a make-directory helper called by the function that creates the entry (e.g. directory made by the caller, entry created in a function literal, helper that takes the lock itself and returns with it held); directory locks outside pkg/blobserver or that also guard tabled fields; whether the lock is the right object when several storages share one tree; liveness (writer starvation). Absence of races on state that is neither in the guard table nor a field of an RWMutex-carrying struct / a lock-configurable object; unsynchronised containers that never had a lock of their own and sit in unguarded fields (container/list, bytes.Buffer, plain maps in structs without a table entry) when accessed with NO lock at all; mutation reached only through interface/dynamic calls or through callees using atomics/sync primitives (not classified); lock-configurable objects held by value, in locals, globals, maps or slices rather than in a struct field; path feasibility beyond constant bool flags (a mutating branch that cannot execute still counts); direct reads of Corpus fields from Index methods outside index.Interface (HasLegacySHA1, signerRefs); the R/W mode of the index lock around corpus mutation reached through L-corpus (L-rlock sees only statically resolved Corpus calls on Index.corpus); that goroutines started under the index lock are joined before it is released; VTA confirmation of dynamic call edges (not used); atomicity of check-then-act sequences, lost updates, deadlock freedom, linearizability against the reference map, any concrete schedule.",
 		RuleDocs: map[string]string{
-			"L-guard":   "every access (per function × guarded field) of the guard table's fields in module code, incl. statically resolved calls on the object a guarded pointer field points to (mode from the callee's body: writes through its receiver outside its own exclusive lock ⇒ write): must-hold lockset contains the owning object's mutex (R for reads, W for writes), or the object is fresh, or the field has no post-construction writer",
+			"L-guard":   "every access (per function × guarded field) of the guard table's fields in module code, incl. statically resolved calls on the object a guarded pointer field points to (mode from the callee's body: writes through its receiver outside its own exclusive lock ⇒ write): must-hold lockset contains the owning object's mutex (R for reads, W for writes), or the object is fresh, or it was created and installed by this call tree into an exclusively owned object (installed-fresh grant, decided by role), or the field has no post-construction writer",
 			"L-locked":  "every static call site (and heap.* call for heap callbacks) of a lock-requiring function holds the named lock in the mode the callee needs, or the receiver is fresh",
 			"L-unsync":  "every struct field holding a pointer to a lock-configurable object (own mutex skipped under a construction-only bool flag; configuration derived from the reaching constructors' bodies): one obligation per field (self-locking in every construction, or all sites locked by one common owner mutex) and, when some stored object does not lock itself, one per call site on the field: mutating calls (by body) hold a mutex of the owner exclusively — RLock is not enough — reading calls hold it in any mode",
 			"L-rlock":   "every function × field of an RWMutex-carrying module struct (non-table fields) or package-level variable next to a package-level RWMutex, with accesses that run under only the read side of that RWMutex and no exclusive lock: none of them is a definite write (store, map update/delete, in-place write, callee/method whose body writes through the field or the object it points to)",
-			"L-excl":    "every RWMutex field of a pkg/blobserver struct type that guards no tabled struct field but is held around directory-structure calls (files.Storage.dirLockMu): one obligation for the classification table (all files.VFS methods classified), one per lock, one per (make-directory call, dependent create-in-that-directory call) pair — the lock is held (R or W) at both and not released on any path between them — and one per directory-removing call (VFS.RemoveDir; Remove/Rename/os.Remove* of a directory-valued path; through wrappers) — the lock is held for WRITING at the call; read side or no lock = 'directory removed while receivers may be between MkdirAll and TempFile'",
+			"L-excl":    "every RWMutex field of a pkg/blobserver struct type that guards no tabled struct field but is held around directory-structure calls (files.Storage.dirLockMu): one obligation for the classification table (all files.VFS methods classified), one per lock, one per (make-directory call, dependent create-in-that-directory call) pair — the lock is held (R or W) at both and not released on any path between them; a make-directory helper is followed into its callers — and one per directory-removing call (VFS.RemoveDir; Remove/Rename/os.Remove* of a directory-valued path; through wrappers) — the lock is held for WRITING at the call; read side or no lock = 'directory removed while receivers may be between MkdirAll and TempFile'",
 			"L-pending": "C05's I-recent reported for C14: noteBlobIndexedLocked records every indexed blob in recentDone and queues every released dependant, MarkDone re-notes recently done dependencies before clearing recentDone, getNewPendingBlobIndex registers what it returns - the coordination that makes concurrent receives of a blob and its dependency converge to a sequentially explainable state",
-			"L-corpus":  "every call / go / defer / interface invoke / function-value site, in non-contract code, of a corpus-touching contract function (*Corpus and *LocationHelper methods, index.Interface methods of *Index, search.Handler *Locked methods): the index lock is held at the site or the enclosing function is only ever entered with it held (all entry sites in the module, greatest fixpoint)",
+			"L-corpus":  "every call / go / defer / interface invoke / function-value site, in non-contract code, of a corpus-touching contract function (*Corpus and *LocationHelper methods, index.Interface methods of *Index, search.Handler *Locked methods): the index lock is held at the site or the enclosing function is only ever entered with it held (all entry sites in the module, greatest fixpoint); one exception keyed by callee + root function (GetBlobMeta under index.newFromConfig)",
 		},
 		Run:       runC14,
 		DesignRef: "DESIGN.md §4 C14",
-		Technique: "static analysis: must-hold lockset dataflow over go/ssa with inter-procedural entry locksets (meet over static callers, entry-site fixpoint for the index lock), type-resolved guard table, freshness (escape) exemption, body-derived receiver-access summaries (transitive writes through a parameter outside the callee's own exclusive lock, on a CFG pruned by construction-time configuration flags and constant bool arguments), constructor-reaching configuration of lock-configurable objects; for resource locks: type-resolved classification of filesystem calls (files.VFS method table checked against the interface), value-based directory-path classification, lock-mode check at directory-removing calls and a release-free-path exploration between a make-directory call and its dependent create call",
+		Technique: "static analysis: must-hold lockset dataflow over go/ssa with inter-procedural entry locksets (meet over static callers, entry-site fixpoint for the index lock), type-resolved guard table, freshness (escape) exemption incl. synchronously run literals, installed-fresh-object lock grants with an exclusive-ownership who-may-call check (recursive over helpers), body-derived receiver-access summaries (transitive writes through a parameter outside the callee's own exclusive lock, on a CFG pruned by construction-time configuration flags and constant bool arguments), constructor-reaching configuration of lock-configurable objects; for resource locks: type-resolved classification of filesystem calls (files.VFS method table checked against the interface), value-based directory-path classification, lock-mode check at directory-removing calls and a release-free-path exploration between a make-directory call and its dependent create call",
 		LevelText: "Decides lock discipline only: listed guarded fields are accessed, lock-requiring functions are called, and corpus-reading methods are reached only with the owning mutex held on every CFG path; objects configured not to lock themselves are mutated only under an exclusive lock of their owner; nothing is definitely written while only the read side of its struct's (or package's) RWMutex is held; the index's pending-blob bookkeeping (recentDone/readyReindex) releases a dependant whose dependency was indexed concurrently; the files storage's directory lock is held without a gap from making a shard directory to creating the temp file in it and exclusively around every directory removal (so a removal cannot make a concurrent receive fail). Does not decide races on other state, unclassified (dynamic / atomics-based) callees, atomicity, lost updates or linearizability.",
 	})
 }
@@ -474,11 +474,11 @@ func (fi *c14FreshInfo) leaks(fn *ssa.Function, idx int, depth int) bool {
 					continue
 				}
 				followVar(al, func(ld *ssa.UnOp) {
-					if ld.Parent() != fn {
-						leak = true // captured by a literal
+					if ld.Parent() != fn && !c14LitRunsWithin(ld.Parent(), fn) {
+						leak = true // captured by a literal that may outlive or run beside fn
 						return
 					}
-					walk(ld)
+					walk(ld) // in fn, or in a literal fn only calls / defers itself: its uses are fn's uses
 				})
 			case *ssa.Go:
 				leak = true
@@ -509,6 +509,73 @@ func (fi *c14FreshInfo) leaks(fn *ssa.Function, idx int, depth int) bool {
 		fi.leakMemo[k] = 2
 	}
 	return leak
+}
+
+// c14LitRunsWithin: lit is a function literal nested in outer that only ever runs
+// synchronously inside it — at every level the literal's value is called or
+// deferred directly (possibly after being kept in a plain local variable), never
+// started with go, stored elsewhere, returned or passed on.
+func c14LitRunsWithin(lit, outer *ssa.Function) bool {
+	for lit != outer {
+		parent := lit.Parent()
+		if parent == nil {
+			return false
+		}
+		okAll := true
+		found := false
+		var check func(v ssa.Value, seen map[ssa.Value]bool)
+		check = func(v ssa.Value, seen map[ssa.Value]bool) {
+			if seen[v] || !okAll {
+				return
+			}
+			seen[v] = true
+			refs := v.Referrers()
+			if refs == nil {
+				return
+			}
+			for _, u := range *refs {
+				switch x := u.(type) {
+				case *ssa.DebugRef:
+				case *ssa.Call:
+					if x.Call.Value != v {
+						okAll = false
+					}
+				case *ssa.Defer:
+					if x.Call.Value != v {
+						okAll = false
+					}
+				case *ssa.Store:
+					al, isAl := x.Addr.(*ssa.Alloc)
+					if x.Val != v || !isAl || !plainVariable(al) {
+						okAll = false
+						continue
+					}
+					followVar(al, func(ld *ssa.UnOp) {
+						if ld.Parent() != parent {
+							okAll = false
+							return
+						}
+						check(ld, seen)
+					})
+				default:
+					okAll = false
+				}
+			}
+		}
+		for _, b := range parent.Blocks {
+			for _, in := range b.Instrs {
+				if mc, ok := in.(*ssa.MakeClosure); ok && mc.Fn == ssa.Value(lit) {
+					found = true
+					check(mc, map[ssa.Value]bool{})
+				}
+			}
+		}
+		if !found || !okAll {
+			return false
+		}
+		lit = parent
+	}
+	return true
 }
 
 func (fi *c14FreshInfo) afterPublish(a ssa.Value) map[ssa.Instruction]bool {
@@ -633,12 +700,17 @@ type c14Ctx struct {
 	eligOK map[*ssa.Function]bool
 	// extraRoots: functions touching state checked by L-unsync / L-rlock (their entry locksets are inferred too)
 	extraRoots []*ssa.Function
+	// grants: per top-level function, the "installed fresh object" lock grants (see c14Grant)
+	grants    map[*ssa.Function][]*c14Grant
+	grantWhy  map[*ssa.Function]map[string]string // top -> granted lock path -> why (for the evidence text)
+	ownedMemo map[c14LeakKey]int                  // 0 unknown, 1 in progress, 2 owned, 3 not owned
 }
 
 func c14NewCtx(p *Program) *c14Ctx {
 	cx := &c14Ctx{p: p, fresh: &c14FreshInfo{published: map[ssa.Value]map[ssa.Instruction]bool{}, leakMemo: map[c14LeakKey]int{}},
 		entry: map[*ssa.Function]LockSet{}, li: map[*ssa.Function]*LockInfo{}, decl: map[*ssa.Function]*c14Req{},
-		inv: map[string]bool{}, elig: map[*ssa.Function]bool{}, eligOK: map[*ssa.Function]bool{}}
+		inv: map[string]bool{}, elig: map[*ssa.Function]bool{}, eligOK: map[*ssa.Function]bool{},
+		grants: map[*ssa.Function][]*c14Grant{}, grantWhy: map[*ssa.Function]map[string]string{}, ownedMemo: map[c14LeakKey]int{}}
 	for _, f := range p.AllFuncs {
 		for _, c := range CallsIn(f, false) {
 			if cc := c.Common(); cc.IsInvoke() {
@@ -659,6 +731,9 @@ func (cx *c14Ctx) lockInfo(top *ssa.Function) *LockInfo {
 	}
 	li := AnalyzeLocks(top, e)
 	cx.li[top] = li
+	if gs := cx.grants[top]; len(gs) > 0 {
+		cx.applyGrants(li, top, e, gs)
+	}
 	return li
 }
 
@@ -752,7 +827,7 @@ func (cx *c14Ctx) inferEntries(roots []*ssa.Function) {
 		}
 		rel[f] = true
 		order = append(order, f)
-		if _, isDecl := cx.decl[f]; isDecl || !cx.eligible(f) {
+		if !cx.eligible(f) {
 			return
 		}
 		for _, c := range cx.p.StaticCallers(f) {
@@ -771,7 +846,7 @@ func (cx *c14Ctx) inferEntries(roots []*ssa.Function) {
 		changed := false
 		next := map[*ssa.Function]LockSet{}
 		for _, f := range order {
-			if _, isDecl := cx.decl[f]; isDecl || !cx.eligible(f) {
+			if !cx.eligible(f) {
 				continue
 			}
 			var e LockSet
@@ -789,6 +864,12 @@ func (cx *c14Ctx) inferEntries(roots []*ssa.Function) {
 			}
 			if e == nil {
 				e = LockSet{}
+			}
+			if rq := cx.decl[f]; rq != nil && rq.path != "" {
+				// lock-requiring by contract: the contract lock is assumed inside (each call site is an
+				// L-locked obligation); whatever else every static caller holds is a fact like for any helper
+				e = e.clone()
+				e[rq.path] = 'W'
 			}
 			next[f] = e
 		}
@@ -810,7 +891,7 @@ func (cx *c14Ctx) inferEntries(roots []*ssa.Function) {
 	// self-recursive call sites must re-establish the entry lockset
 	for _, f := range order {
 		e := cx.entry[f]
-		if len(e) == 0 || cx.decl[f] != nil {
+		if len(e) == 0 || !cx.eligible(f) {
 			continue
 		}
 		for _, c := range cx.p.StaticCallers(f) {
@@ -818,9 +899,291 @@ func (cx *c14Ctx) inferEntries(roots []*ssa.Function) {
 				continue
 			}
 			h := cx.toCallee(c, f, cx.heldAtSite(c))
+			if rq := cx.decl[f]; rq != nil && rq.path != "" {
+				h[rq.path] = 'W'
+			}
 			if !equalLS(meet(e, h), e) {
 				cx.entry[f] = meet(e, h)
 				cx.li = map[*ssa.Function]*LockInfo{}
+			}
+		}
+	}
+}
+
+// ---------------------------------------------------------------------------
+// Installed fresh objects: lock grants
+//
+// A function that builds a NEW object of a guard-table type and installs it in a
+// field of an object it owns exclusively (`x.deletes = &deletionCache{...}` /
+// `= newDeletionCache()`, then fills x.deletes.m) cannot contend with anybody for
+// the new object's mutex: the only way to the new object is through the owner,
+// and nobody else has the owner. From the installing store on, the new object's
+// own mutexes therefore count as held for writing — in the function itself, in
+// the literals it runs synchronously and (through the ordinary entry-lockset
+// inference) in the unexported helpers it hands the owner or the new object to.
+//
+// Everything is decided by role, nothing by the name of the installing function
+// or of a constructor:
+//   - the stored value is an object allocated in this function (composite
+//     literal, new) or the result of a function all of whose returns yield an
+//     object it allocated, and the store is its first publication;
+//   - every store to that field in the function (literals included) is such a
+//     store, so a later load of the field yields the new object;
+//   - the owner is exclusively owned: it is itself allocated here and still
+//     unpublished at the access, or it is a parameter of an unexported function
+//     that is never used as a value / through an interface and every static
+//     call of which passes an unpublished object, lies in a start-up function
+//     of c14StartupOwners, or passes on a parameter with the same property
+//     (helpers of accepted callers, depth 4); in the parameter case the store
+//     must also execute with a mutex of the owner held for writing.
+
+// c14StartupOwners: functions that own their receiver exclusively although it is
+// published (frozen: symbol, reason).
+var c14StartupOwners = map[string]string{
+	"pkg/index.(*Index).Reindex": "start-up only: its single non-test caller is serverinit's handler loader, which runs the reindex before serverinit installs the index and before serving starts (same reason the previous per-function exception gave)",
+}
+
+type c14Grant struct {
+	st         *ssa.Store
+	owner      ssa.Value // the object whose field receives the new object
+	ownerParam int       // index of the parameter of st.Parent() the owner is, or -1: the owner must be unpublished at the access
+	ownerPath  string
+	locks      []string // caller-side paths of the installed object's mutexes, e.g. "&x.deletes.RWMutex"
+	what       string
+}
+
+// c14CollectGrants enumerates the candidate grants of the module.
+func c14CollectGrants(p *Program, cx *c14Ctx, guards map[*types.Named]map[int]*c14FieldSpec) {
+	type fk struct {
+		top *ssa.Function
+		n   *types.Named
+		i   int
+	}
+	bad := map[fk]bool{}
+	cand := map[fk][]*c14Grant{}
+	var order []fk
+	for _, fn := range p.AllFuncs {
+		for _, b := range fn.Blocks {
+			for _, in := range b.Instrs {
+				st, ok := in.(*ssa.Store)
+				if !ok {
+					continue
+				}
+				fa, ok := st.Addr.(*ssa.FieldAddr)
+				if !ok {
+					continue
+				}
+				pt, ok := st.Val.Type().Underlying().(*types.Pointer)
+				if !ok {
+					continue
+				}
+				tn := NamedOf(pt.Elem())
+				if tn == nil || guards[tn] == nil {
+					continue
+				}
+				on := NamedOf(fa.X.Type())
+				if on == nil {
+					continue
+				}
+				k := fk{TopFunc(fn), on, fa.Field}
+				if _, seen := cand[k]; !seen && !bad[k] {
+					order = append(order, k)
+				}
+				if !cx.fresh.freshAt(st.Val, st) {
+					bad[k] = true
+					continue
+				}
+				g := &c14Grant{st: st, owner: fa.X, ownerParam: -1, ownerPath: AccessPath(fa.X)}
+				if prm, isP := originValue(fa.X).(*ssa.Parameter); isP && fn.Parent() == nil {
+					for i, q := range fn.Params {
+						if q == prm {
+							g.ownerParam = i
+						}
+					}
+				}
+				if g.ownerParam < 0 && !cx.fresh.freshAt(fa.X, st) {
+					bad[k] = true
+					continue
+				}
+				ap := AccessPath(fa)
+				if !strings.HasPrefix(ap, "&") {
+					bad[k] = true
+					continue
+				}
+				var mus []string
+				for _, fs := range guards[tn] {
+					mus = append(mus, fs.g.mu)
+				}
+				for _, mu := range dedupe(mus) {
+					g.locks = append(g.locks, ap+"."+mu)
+				}
+				sort.Strings(g.locks)
+				g.what = fmt.Sprintf("new %s installed in %s.%s", tn.Obj().Name(), on.Obj().Name(), fieldName(fa.X.Type(), fa.Field))
+				cand[k] = append(cand[k], g)
+			}
+		}
+	}
+	for _, k := range order {
+		if bad[k] {
+			continue
+		}
+		cx.grants[k.top] = append(cx.grants[k.top], cand[k]...)
+	}
+}
+
+// owned: parameter idx of fn always denotes an object no other goroutine uses
+// while fn runs (see the section comment).
+func (cx *c14Ctx) owned(fn *ssa.Function, idx, depth int) bool {
+	if fn == nil || fn.Parent() != nil || idx >= len(fn.Params) {
+		return false
+	}
+	k := c14LeakKey{fn, idx}
+	switch cx.ownedMemo[k] {
+	case 1, 2:
+		return true // in progress: recursion re-establishes what the outer call needs
+	case 3:
+		return false
+	}
+	if depth > 4 || !cx.eligible(fn) {
+		cx.ownedMemo[k] = 3
+		return false
+	}
+	cx.ownedMemo[k] = 1
+	ok := true
+	for _, c := range cx.p.StaticCallers(fn) {
+		args := c.Args()
+		if c.IsGo() || idx >= len(args) {
+			ok = false
+			break
+		}
+		if cx.fresh.freshAt(args[idx], c.Instr) {
+			continue
+		}
+		if _, startup := c14StartupOwners[FuncKey(TopFunc(c.Fn))]; startup {
+			continue
+		}
+		passed := false
+		if prm, isP := originValue(args[idx]).(*ssa.Parameter); isP && c.Fn.Parent() == nil {
+			for i, q := range c.Fn.Params {
+				if q == prm && cx.owned(c.Fn, i, depth+1) {
+					passed = true
+				}
+			}
+		}
+		if !passed {
+			ok = false
+			break
+		}
+	}
+	if ok {
+		cx.ownedMemo[k] = 2
+	} else {
+		cx.ownedMemo[k] = 3
+	}
+	return ok
+}
+
+const c14ProbeLock = "&<c14-probe>"
+
+// applyGrants adds the granted locks to the must-hold locksets of top (and of
+// the literals that inherit their creator's lockset) after the installing store.
+func (cx *c14Ctx) applyGrants(li *LockInfo, top *ssa.Function, entry LockSet, gs []*c14Grant) {
+	var probe *LockInfo
+	add := func(in ssa.Instruction, g *c14Grant) {
+		ls := li.before[in]
+		if ls == nil {
+			ls = LockSet{}
+			li.before[in] = ls
+		}
+		for _, l := range g.locks {
+			ls[l] = 'W'
+		}
+	}
+	var whole func(f *ssa.Function, g *c14Grant)
+	inherits := func(lit *ssa.Function) bool {
+		if probe == nil {
+			e := entry.clone()
+			if e == nil {
+				e = LockSet{}
+			}
+			e[c14ProbeLock] = 'W'
+			probe = AnalyzeLocks(top, e)
+		}
+		_, ok := probe.entry[lit][c14ProbeLock]
+		return ok
+	}
+	whole = func(f *ssa.Function, g *c14Grant) {
+		for _, b := range f.Blocks {
+			for _, in := range b.Instrs {
+				add(in, g)
+			}
+		}
+		for _, a := range f.AnonFuncs {
+			if inherits(a) {
+				whole(a, g)
+			}
+		}
+	}
+	for _, g := range gs {
+		f := g.st.Parent()
+		why := ""
+		if g.ownerParam >= 0 {
+			if !cx.owned(f, g.ownerParam, 0) {
+				continue
+			}
+			heldW := false
+			for l, m := range li.HeldAt(g.st) {
+				if m == 'W' && strings.HasPrefix(l, "&"+g.ownerPath+".") {
+					heldW = true
+				}
+			}
+			if !heldW {
+				continue
+			}
+			why = fmt.Sprintf("%s at %s with a mutex of %s held for writing; every static call of %s passes an unpublished %s or lies in a start-up function, so nobody can contend for the new object", g.what, cx.p.Pos(g.st.Pos()), g.ownerPath, FuncKey(f), g.ownerPath)
+		} else {
+			why = fmt.Sprintf("%s at %s; the owner is allocated in %s and not yet published", g.what, cx.p.Pos(g.st.Pos()), FuncKey(f))
+		}
+		n := 0
+		sb := g.st.Block()
+		si := instrIndex(g.st)
+		for _, b := range f.Blocks {
+			var ins []ssa.Instruction
+			switch {
+			case b == sb:
+				ins = b.Instrs[si+1:]
+			case sb.Dominates(b):
+				ins = b.Instrs
+			}
+			for _, in := range ins {
+				if g.ownerParam < 0 && !cx.fresh.freshAt(g.owner, in) {
+					continue
+				}
+				add(in, g)
+				n++
+				if mc, ok := in.(*ssa.MakeClosure); ok && g.ownerParam >= 0 {
+					// a literal created after the store that runs under its creator's lockset
+					lit := mc.Fn.(*ssa.Function)
+					all := true
+					for _, b2 := range f.Blocks {
+						for _, in2 := range b2.Instrs {
+							if mc2, ok := in2.(*ssa.MakeClosure); ok && mc2.Fn == mc.Fn && !Precedes(g.st, in2) {
+								all = false
+							}
+						}
+					}
+					if all && inherits(lit) {
+						whole(lit, g)
+					}
+				}
+			}
+		}
+		if n > 0 {
+			if cx.grantWhy[top] == nil {
+				cx.grantWhy[top] = map[string]string{}
+			}
+			for _, l := range g.locks {
+				cx.grantWhy[top][l] = why
 			}
 		}
 	}
@@ -934,6 +1297,7 @@ func c14RuleGuardAndLocked(p *Program, r *Reporter, cx *c14Ctx, guards map[*type
 	}
 	// 2. lock-requiring functions by contract
 	c14CollectDeclared(p, cx, guards)
+	c14CollectGrants(p, cx, guards)
 	var roots []*ssa.Function
 	for f := range fnHas {
 		roots = append(roots, f)
@@ -1005,11 +1369,6 @@ func c14RuleGuardAndLocked(p *Program, r *Reporter, cx *c14Ctx, guards map[*type
 		var bad, undec []string
 		nFresh, nHeld, nNoWriter, nWO, nElem, nPtrRead := 0, 0, 0, 0, 0, 0
 		var lockNames []string
-		exc, hasExc := c14GuardExceptions[construct]
-		excOK := false
-		if hasExc {
-			excOK = exc.recheck(p, cx, k.fn, as)
-		}
 		for _, a := range as {
 			ap := AccessPath(a.fa)
 			suffix := "." + spec.field
@@ -1087,13 +1446,6 @@ func c14RuleGuardAndLocked(p *Program, r *Reporter, cx *c14Ctx, guards map[*type
 				bad = append(bad, msg)
 			}
 		}
-		if hasExc {
-			if excOK {
-				r.OKTable("L-guard", construct, site, fmt.Sprintf("exception (re-checked structurally): %s; %d access(es) would otherwise need the lock", exc.reason, len(bad)))
-				continue
-			}
-			bad = append(bad, "exception no longer applies: "+exc.reason)
-		}
 		switch {
 		case len(bad) > 0:
 			r.Violation("L-guard", construct, site, strings.Join(bad, " | "))
@@ -1103,6 +1455,11 @@ func c14RuleGuardAndLocked(p *Program, r *Reporter, cx *c14Ctx, guards map[*type
 			d := fmt.Sprintf("%d access event(s): %d with %s held", nFresh+nHeld+nNoWriter+nWO+nElem+nPtrRead, nHeld, strings.Join(dedupe(lockNames), ","))
 			if e := cx.entry[top]; len(e) > 0 && nHeld > 0 {
 				d += " (entry lockset " + c14EntryDesc(cx, top) + ")"
+			}
+			for _, l := range dedupe(lockNames) {
+				if why, ok := cx.grantWhy[top][l]; ok {
+					d += "; " + l + " counts as held: " + why
+				}
 			}
 			if nFresh > 0 {
 				d += fmt.Sprintf(", %d on a not-yet-published object", nFresh)
@@ -1151,74 +1508,12 @@ func c14EntryDesc(cx *c14Ctx, top *ssa.Function) string {
 		return "{}"
 	}
 	if rq := cx.decl[top]; rq != nil {
+		if len(e) > 1 {
+			return e.String() + " (" + rq.path + " by contract, the rest = meet over " + fmt.Sprint(len(cx.p.StaticCallers(top))) + " static call site(s))"
+		}
 		return e.String() + " by contract"
 	}
 	return e.String() + " = meet over " + fmt.Sprint(len(cx.p.StaticCallers(top))) + " static call site(s)"
-}
-
-// c14GuardExceptions: one construct, one reason, re-checked structurally on every run.
-var c14GuardExceptions = map[string]struct {
-	reason  string
-	recheck func(p *Program, cx *c14Ctx, fn *ssa.Function, as []*c14Access) bool
-}{
-	"pkg/index.(*Index).initDeletesCacheLocked#m": {
-		reason: "fills the deletionCache it has just created: `x.deletes = newDeletionCache()` dominates every access, x.mu is held for writing by contract, and the only callers are New (unpublished index) and Reindex (start-up, before serverinit installs the index); taking the new cache's own lock would add nothing",
-		recheck: func(p *Program, cx *c14Ctx, fn *ssa.Function, as []*c14Access) bool {
-			// (1) entry lockset holds the receiver's mu for W by contract
-			rq := cx.decl[fn]
-			if rq == nil || cx.entry[fn][rq.path] != 'W' {
-				return false
-			}
-			// (2) a store of a fresh constructor result into x.deletes precedes every access event
-			var st *ssa.Store
-			for _, b := range fn.Blocks {
-				for _, in := range b.Instrs {
-					s, ok := in.(*ssa.Store)
-					if !ok {
-						continue
-					}
-					fa, ok := s.Addr.(*ssa.FieldAddr)
-					if !ok || fa.X != ssa.Value(fn.Params[0]) || fieldName(fa.X.Type(), fa.Field) != "deletes" {
-						continue
-					}
-					call, ok := s.Val.(*ssa.Call)
-					if !ok || !c14ReturnsFresh(call.Call.StaticCallee()) {
-						continue
-					}
-					st = s
-				}
-			}
-			if st == nil {
-				return false
-			}
-			for _, a := range as {
-				// the access must go through x.deletes
-				ld, ok := a.fa.X.(*ssa.UnOp)
-				if !ok {
-					return false
-				}
-				bfa, ok := ld.X.(*ssa.FieldAddr)
-				if !ok || bfa.X != ssa.Value(fn.Params[0]) || fieldName(bfa.X.Type(), bfa.Field) != "deletes" {
-					return false
-				}
-				for _, ev := range a.evs {
-					if !Precedes(st, ev.at) {
-						return false
-					}
-				}
-			}
-			// (3) static callers: only New (fresh receiver) and Reindex
-			for _, c := range p.StaticCallers(fn) {
-				if cx.fresh.freshAt(c.Args()[0], c.Instr) {
-					continue
-				}
-				if FuncKey(TopFunc(c.Fn)) != "pkg/index.(*Index).Reindex" {
-					return false
-				}
-			}
-			return true
-		},
-	},
 }
 
 // c14ReturnsFresh: every return of fn yields an object allocated in fn.
@@ -1271,7 +1566,12 @@ func c14CollectDeclared(p *Program, cx *c14Ctx, guards map[*types.Named]map[int]
 	}
 	// (b) documented
 	for _, d := range c14DocLocked {
-		fn := p.Func(d.pkg, d.recv, d.name)
+		// a documented helper that was renamed, merged or inlined is no loss: without the contract its body is
+		// checked with the entry lockset inferred from its static callers (L-guard), which demands the same
+		fn := p.LookupFunc(d.pkg, d.recv, d.name)
+		if fn == nil {
+			continue
+		}
 		add(fn, d.mu, d.why)
 	}
 	// (c) heap.Interface callbacks of a guarded type that embeds its mutex
@@ -1887,13 +2187,11 @@ func c14RuleCorpus(p *Program, r *Reporter, cx *c14Ctx) {
 			r.OK("L-corpus", construct, site, "index lock held at the "+kind+" ("+contract[callee]+")")
 			return
 		}
-		if exc, ok := c14CorpusExceptions[construct]; ok && !isSafe(fn) {
-			if exc.recheck(p, fn) {
-				r.OKTable("L-corpus", construct, site, "exception (re-checked structurally): "+exc.reason)
+		if exc, ok := c14CorpusExceptions[FuncKey(callee)]; ok && !isSafe(fn) {
+			if c14OnlyFrom(p, cx, fn, exc.root, 0, map[*ssa.Function]bool{}) {
+				r.OKTable("L-corpus", construct, site, "exception (re-checked structurally: "+FuncKey(TopFunc(fn))+" is reachable only from "+exc.root+"): "+exc.reason)
 				return
 			}
-			r.Violation("L-corpus", construct, site, "exception no longer applies: "+exc.reason)
-			return
 		}
 		if !isSafe(fn) {
 			r.Violation("L-corpus", construct, site, fmt.Sprintf("%s of %s without the index lock (%s: %s). %s can run without the lock: %s. The corpus maps are written under Index.Lock by ReceiveBlob→Corpus.addBlob, so this access races with a concurrent receive",
@@ -1917,30 +2215,54 @@ func c14RuleCorpus(p *Program, r *Reporter, cx *c14Ctx) {
 	r.Floor("L-corpus", 50)
 }
 
-// c14CorpusExceptions: one construct, one reason, re-checked on every run.
+// c14CorpusExceptions: one contract function, one reason, one root; re-checked on
+// every run. The exception covers a site wherever it sits in the code that only
+// the root function can reach: the root itself, its literals, and unexported
+// functions all of whose static calls and function-value references lie in such
+// code (depth 4) — so extracting the site into a helper or turning the callback
+// literal into a method changes nothing, and a second way in removes it.
 var c14CorpusExceptions = map[string]struct {
-	reason  string
-	recheck func(p *Program, fn *ssa.Function) bool
+	reason string
+	root   string
 }{
-	"pkg/index.(*Index).integrityCheck$2#pkg/index.(*Index).GetBlobMeta": {
-		reason: "integrityCheck runs only inside index.newFromConfig, on the Index that function has just built and not yet returned to the handler loader: no corpus is attached yet (KeepInMemory is called later by the search handler) and nobody else can reach the index",
-		recheck: func(p *Program, fn *ssa.Function) bool {
-			top := TopFunc(fn)
-			if token.IsExported(top.Name()) || len(p.FuncValueUses(top)) > 0 {
-				return false
-			}
-			callers := p.StaticCallers(top)
-			if len(callers) == 0 {
-				return false
-			}
-			for _, c := range callers {
-				if FuncKey(TopFunc(c.Fn)) != "pkg/index.newFromConfig" || c.IsGo() {
-					return false
-				}
-			}
-			return true
-		},
+	"pkg/index.(*Index).GetBlobMeta": {
+		reason: "the integrity check runs only inside index.newFromConfig, on the Index that function has just built and not yet returned to the handler loader: no corpus is attached yet (KeepInMemory is called later by the search handler) and nobody else can reach the index",
+		root:   "pkg/index.newFromConfig",
 	},
+}
+
+// c14OnlyFrom: fn can only run on behalf of the function named root.
+func c14OnlyFrom(p *Program, cx *c14Ctx, fn *ssa.Function, root string, depth int, seen map[*ssa.Function]bool) bool {
+	top := TopFunc(fn)
+	if FuncKey(top) == root {
+		return true
+	}
+	if seen[top] {
+		return true
+	}
+	if depth > 4 || token.IsExported(top.Name()) || top.Synthetic != "" || top.Name() == "init" || top.Name() == "main" {
+		return false
+	}
+	callers := p.StaticCallers(top)
+	uses := p.FuncValueUses(top)
+	if len(callers)+len(uses) == 0 {
+		return false
+	}
+	if top.Signature.Recv() != nil && cx.inv[top.Name()] && len(p.InvokeSites(top)) > 0 {
+		return false
+	}
+	seen[top] = true
+	for _, c := range callers {
+		if c.IsGo() || !c14OnlyFrom(p, cx, c.Fn, root, depth+1, seen) {
+			return false
+		}
+	}
+	for _, u := range uses {
+		if u.Parent() == nil || !c14OnlyFrom(p, cx, u.Parent(), root, depth+1, seen) {
+			return false
+		}
+	}
+	return true
 }
 
 func c14InstrPos(in ssa.Instruction) token.Pos {
@@ -4097,7 +4419,6 @@ func c14RuleExcl(p *Program, r *Reporter, cx *c14Ctx, st *c14ExclState) {
 
 		// (1) dependent sequences
 		type seq struct {
-			c     c14ExclSite
 			ok    bool
 			descr string
 		}
@@ -4111,24 +4432,21 @@ func c14RuleExcl(p *Program, r *Reporter, cx *c14Ctx, st *c14ExclState) {
 			}
 			return k
 		}
-		for _, C := range mine {
-			if C.op.kind != c14FsMkdir {
-				continue
+		// evalSeq decides the sequence that starts at call cIn in fn (a make-directory call, or — lifted — a
+		// call of an unexported helper that makes the directory and leaves creating the entry to its caller).
+		// dirs: the values that denote the directory in fn.
+		var evalSeq func(cIn ssa.CallInstruction, fn *ssa.Function, owner string, dirs []ssa.Value, cname, base string, depth int)
+		evalSeq = func(cIn ssa.CallInstruction, fn *ssa.Function, owner string, dirs []ssa.Value, cname, base string, depth int) {
+			site := p.Pos(CallSite{fn, cIn}.Pos())
+			L := lk.path(owner)
+			dependsOnAny := func(op c14FsOp) bool {
+				for _, d := range dirs {
+					if st.dependsOnDir(op, d) {
+						return true
+					}
+				}
+				return false
 			}
-			fn := C.c.Fn
-			site := p.Pos(C.c.Pos())
-			base := FuncKey(fn) + "#sequence:" + C.op.name
-			if C.via != "" {
-				r.Undecided(rule, uniq(base+"(via "+C.via+")"), site, "the directory is created inside "+C.via+", which receives the VFS as a plain parameter: the sequence that relies on it is not followed")
-				nBad++
-				continue
-			}
-			if !named(C.owner) {
-				r.Undecided(rule, uniq(base), site, "cannot name the storage object the call works for ("+C.owner+")")
-				nBad++
-				continue
-			}
-			L := lk.path(C.owner)
 			// dependent calls in the same function
 			type dep struct {
 				in   ssa.CallInstruction
@@ -4139,18 +4457,20 @@ func c14RuleExcl(p *Program, r *Reporter, cx *c14Ctx, st *c14ExclState) {
 			var scan func(f *ssa.Function)
 			scan = func(f *ssa.Function) {
 				for _, u := range CallsIn(f, false) {
-					if u.Instr == C.c.Instr {
+					if u.Instr == cIn {
 						continue
 					}
 					name := ""
 					if op, ok := st.classify(u); ok {
-						if st.dependsOnDir(op, C.op.path) {
+						if dependsOnAny(op) {
 							name = op.name
 						}
 					} else if g := u.Callee(); g != nil && InModule(g) {
 						for j, a := range u.Args() {
-							if c14ExclSameValue(a, C.op.path, 0) && st.paramCreates(g, j, 0) {
-								name = FuncKey(g)
+							for _, d := range dirs {
+								if c14ExclSameValue(a, d, 0) && st.paramCreates(g, j, 0) {
+									name = FuncKey(g)
+								}
 							}
 						}
 					}
@@ -4169,7 +4489,98 @@ func c14RuleExcl(p *Program, r *Reporter, cx *c14Ctx, st *c14ExclState) {
 			}
 			scan(fn)
 			li := cx.lockInfo(TopFunc(fn))
-			heldC := lockAt(C)
+			var heldC LockSet
+			switch x := cIn.(type) {
+			case *ssa.Go:
+				heldC = LockSet{}
+			case *ssa.Defer:
+				heldC = li.atExits(fn, x)
+			default:
+				heldC = li.HeldAt(cIn)
+			}
+			if len(deps) == 0 && len(inLit) == 0 && depth < 3 && fn.Parent() == nil && cx.eligible(fn) {
+				// function splitting: the directory is made in an unexported helper, the entry is created by its
+				// caller(s). The helper must run with the lock held from the call on and must not touch the lock
+				// itself; the sequence is then decided in every caller, from the call of the helper on.
+				_, atC := heldC[L]
+				touches := ""
+				for _, u := range CallsIn(fn, true) {
+					if _, path, ok := lockEffect(u); ok && path == L {
+						touches = p.Pos(u.Pos())
+					}
+				}
+				switch {
+				case !atC && touches == "":
+					r.Violation(rule, uniq(base), site, fmt.Sprintf("%s runs without %s held (held: %s; entry lockset of %s: %s) and leaves creating the entry to its callers: a directory removal (which takes the write side) can run in between", cname, L, heldC, FuncKey(fn), c14EntryDesc(cx, fn)))
+					nBad++
+					return
+				case touches != "":
+					r.Undecided(rule, uniq(base), site, fmt.Sprintf("%s makes the directory for its callers but locks/unlocks %s itself (at %s): a hold that spans the return is not followed", FuncKey(fn), L, touches))
+					nBad++
+					return
+				}
+				oi := -1
+				for i, q := range fn.Params {
+					if q.Name() == owner {
+						oi = i
+					}
+				}
+				for _, cs := range p.StaticCallers(fn) {
+					args := cs.Args()
+					var nd []ssa.Value
+					for _, d := range dirs {
+						if q, ok := originValue(d).(*ssa.Parameter); ok && q.Parent() == fn {
+							for i, x := range fn.Params {
+								if x == q && i < len(args) {
+									nd = append(nd, args[i])
+								}
+							}
+						}
+					}
+					if call := cs.Value(); call != nil {
+						nres := fn.Signature.Results().Len()
+						for _, ri := range Returns(fn) {
+							for j, res := range ri.Results {
+								hit := false
+								for _, d := range dirs {
+									od := originValue(d)
+									if c14ExclSameValue(res, d, 0) || DependsOn(res, func(x ssa.Value) bool { return x == od || x == d }) {
+										hit = true
+									}
+								}
+								if !hit {
+									continue
+								}
+								if nres == 1 {
+									nd = append(nd, call)
+								} else if refs := call.Referrers(); refs != nil {
+									for _, u := range *refs {
+										if ex, ok := u.(*ssa.Extract); ok && ex.Index == j {
+											nd = append(nd, ex)
+										}
+									}
+								}
+							}
+						}
+					}
+					nbase := FuncKey(cs.Fn) + "#sequence:" + cname + "(in " + FuncKey(fn) + ")"
+					ownerC := ""
+					if oi >= 0 && oi < len(args) {
+						ownerC = AccessPath(args[oi])
+					}
+					switch {
+					case cs.IsGo() || cs.IsDefer() || len(nd) == 0:
+						r.Undecided(rule, uniq(nbase), p.Pos(cs.Pos()), "the directory made by "+cname+" in "+FuncKey(fn)+" cannot be related to a value of this caller (the helper is started with go/defer, or neither an argument nor a result carries the path)")
+						nBad++
+					case ownerC == "" || !named(ownerC) || strings.HasPrefix(ownerC, "&") || strings.HasPrefix(ownerC, "*"):
+						r.Undecided(rule, uniq(nbase), p.Pos(cs.Pos()), "cannot name the storage object the call works for ("+ownerC+")")
+						nBad++
+					default:
+						evalSeq(cs.Instr, cs.Fn, ownerC, nd, cname+" (in "+FuncKey(fn)+")", nbase, depth+1)
+					}
+				}
+				return
+			}
 			if len(deps) == 0 {
 				why := "no call in this function creates an entry in the directory it makes"
 				if len(inLit) > 0 {
@@ -4177,13 +4588,13 @@ func c14RuleExcl(p *Program, r *Reporter, cx *c14Ctx, st *c14ExclState) {
 				}
 				r.Undecided(rule, uniq(base), site, why+": the extent of the sequence that relies on the directory cannot be delimited (held at the call: "+heldC.String()+")")
 				nBad++
-				continue
+				return
 			}
 			for _, d := range deps {
 				key := uniq(base + "->" + d.name)
 				dsite := p.Pos(CallSite{fn, d.in}.Pos())
-				ctxt := fmt.Sprintf("%s … %s in %s (entry lockset %s)", C.op.name, d.name, FuncKey(fn), c14EntryDesc(cx, TopFunc(fn)))
-				sq := seq{c: C, descr: ctxt}
+				ctxt := fmt.Sprintf("%s … %s in %s (entry lockset %s)", cname, d.name, FuncKey(fn), c14EntryDesc(cx, TopFunc(fn)))
+				sq := seq{descr: ctxt}
 				_, atC := heldC[L]
 				var heldU LockSet
 				if dd, ok := d.in.(*ssa.Defer); ok {
@@ -4196,15 +4607,15 @@ func c14RuleExcl(p *Program, r *Reporter, cx *c14Ctx, st *c14ExclState) {
 				_, atU := heldU[L]
 				switch {
 				case !atC:
-					r.Violation(rule, key, site, fmt.Sprintf("%s runs without %s held (held: %s): a directory removal (which takes the write side) can run between it and %s at %s, which then fails although the store is healthy", C.op.name, L, heldC, d.name, dsite))
+					r.Violation(rule, key, site, fmt.Sprintf("%s runs without %s held (held: %s): a directory removal (which takes the write side) can run between it and %s at %s, which then fails although the store is healthy", cname, L, heldC, d.name, dsite))
 				case !atU:
-					r.Violation(rule, key, dsite, fmt.Sprintf("%s runs without %s held (held: %s) although it relies on the directory made by %s at %s: the directory can be removed in between", d.name, L, heldU, C.op.name, site))
+					r.Violation(rule, key, dsite, fmt.Sprintf("%s runs without %s held (held: %s) although it relies on the directory made by %s at %s: the directory can be removed in between", d.name, L, heldU, cname, site))
 				default:
-					if rel := c14ExclBroken(C.c.Instr, d.in, L); rel != nil {
-						r.Violation(rule, key, p.Pos(c14InstrPos(rel)), fmt.Sprintf("%s is released at %s between %s (%s) and %s (%s): holding it again later does not help, a directory removal can run in the gap and %s fails with 'no such file or directory' on a healthy store", L, p.Pos(c14InstrPos(rel)), C.op.name, site, d.name, dsite, d.name))
+					if rel := c14ExclBroken(cIn, d.in, L); rel != nil {
+						r.Violation(rule, key, p.Pos(c14InstrPos(rel)), fmt.Sprintf("%s is released at %s between %s (%s) and %s (%s): holding it again later does not help, a directory removal can run in the gap and %s fails with 'no such file or directory' on a healthy store", L, p.Pos(c14InstrPos(rel)), cname, site, d.name, dsite, d.name))
 					} else {
 						sq.ok = true
-						r.OK(rule, key, site, fmt.Sprintf("%s held (%c) from %s through %s at %s on every path, no release in between", L, heldU[L], C.op.name, d.name, dsite))
+						r.OK(rule, key, site, fmt.Sprintf("%s held (%c) from %s through %s at %s on every path, no release in between", L, heldU[L], cname, d.name, dsite))
 					}
 				}
 				if !sq.ok {
@@ -4212,6 +4623,25 @@ func c14RuleExcl(p *Program, r *Reporter, cx *c14Ctx, st *c14ExclState) {
 				}
 				seqs = append(seqs, sq)
 			}
+		}
+		for _, C := range mine {
+			if C.op.kind != c14FsMkdir {
+				continue
+			}
+			fn := C.c.Fn
+			site := p.Pos(C.c.Pos())
+			base := FuncKey(fn) + "#sequence:" + C.op.name
+			if C.via != "" {
+				r.Undecided(rule, uniq(base+"(via "+C.via+")"), site, "the directory is created inside "+C.via+", which receives the VFS as a plain parameter: the sequence that relies on it is not followed")
+				nBad++
+				continue
+			}
+			if !named(C.owner) {
+				r.Undecided(rule, uniq(base), site, "cannot name the storage object the call works for ("+C.owner+")")
+				nBad++
+				continue
+			}
+			evalSeq(C.c.Instr, fn, C.owner, []ssa.Value{C.op.path}, C.op.name, base, 0)
 		}
 
 		// (2) structure-destroying calls need the write side
